@@ -90,7 +90,8 @@ def roundtrip(res, sheet, case, sigtag, parser=None):
         res.violation('C03.lossless', f'{guard.crash_site(e)}|{sigtag}', case, 'round trip', repr(e)[:300])
         return False
     ok = True
-    if d1 != d2:
+    lossless = p1 == p2
+    if d1 != d2 and lossless:
         res.violation('C03.fixpoint', f'bytes-differ-default-prefs|{sigtag}', dict(case, serialised=d1.decode('utf-8', 'replace')[:400]),
                       d1.decode('utf-8', 'replace')[:300], d2.decode('utf-8', 'replace')[:300])
         ok = False
@@ -100,7 +101,7 @@ def roundtrip(res, sheet, case, sigtag, parser=None):
                       {'at': list(d[0]), 'dom': d[1]}, {'reparsed': d[2]})
         ok = False
     res.clauses['C03.fixpoint'] += 1
-    if t1 != t2:
+    if t1 != t2 and lossless:  # (a DOM that is not reproduced cannot serialise identically: reported once, as C03.lossless)
         res.violation('C03.fixpoint', f'bytes-differ|{sigtag}', dict(case, serialised=t1.decode('utf-8', 'replace')[:400]),
                       t1.decode('utf-8', 'replace')[:300], t2.decode('utf-8', 'replace')[:300])
         ok = False
@@ -128,6 +129,9 @@ def setback(res, sheet, case, sigtag):
     """(d) text of each node set back on a fresh object of its class"""
     R = cssutils.css.CSSRule
     ns = _ns(sheet)
+    # texts are read under preferences that filter nothing (an empty rule serialises to '' by default)
+    cssutils.ser.prefs.keepEmptyRules = True
+    cssutils.ser.prefs.resolveVariables = False
 
     def fresh_rule(r):
         cls = type(r)
@@ -193,7 +197,10 @@ def setback(res, sheet, case, sigtag):
             if r.type in (R.MEDIA_RULE, R.PAGE_RULE) and depth < 3:
                 walk(r.cssRules, depth + 1)
 
-    walk(sheet.cssRules)
+    try:
+        walk(sheet.cssRules)
+    finally:
+        cssutils.ser.prefs.useDefaults()
 
 
 # ----------------------------------------------------------------------------------------
@@ -350,10 +357,23 @@ def _content_case(res, pos, s, q, record=True):
     if ok:
         return True
     if record:
-        for full, v in probe.violations.items():
+        clauses = {v['clause'] for v in probe.violations.values()}
+        for full, v in sorted(probe.violations.items()):
             clause, sym = v['clause'], full.split('|', 1)[1].rsplit('|', 1)[0]
+            if clause == 'C03.fixpoint' and 'C03.lossless' in clauses and (pos in IDENT_POS or pos == 'url-bare'):
+                continue  # a DOM that is not reproduced cannot serialise identically: one finding, reported as C03.lossless
+            if sym.startswith('bytes-differ-default-prefs') and any(f.split('|')[1] == 'bytes-differ' for f in probe.violations):
+                continue  # same finding as the fixpoint under keep-everything preferences
+            if pos in IDENT_POS:
+                # identifiers are serialised without any escaping: every identifier that holds a character which needs an
+                # escape belongs to one finding per position; judged by inspection of the content (no counterfactual needed)
+                special = (any(not (c.isalpha() or c in '_-' or c.isdigit() or ord(c) > 127 or c == '\\') for c in s)
+                           or s.lstrip('-')[:1].isdigit() or s.strip('-') == '')
+                ess = '+'.join(x for x, on in (('backslash', '\\' in s), ('non-name-char', special)) if on) or 'name-chars-only'
+                res.violation(clause, f'ident|{pos}|chars={ess}', case, v['expected'], v['observed'], size=len(s) * 100 + len(text))
+                continue
 
-            def fails(t, _clause=clause, _sym=sym):
+            def fails(t, _clause=clause):
                 r2 = Result(res.seed)
                 c2 = content_text(pos, t, q)
                 if c2 is None:
@@ -367,8 +387,9 @@ def _content_case(res, pos, s, q, record=True):
                 return any(x['clause'] == _clause for x in r2.violations.values())
 
             ess = essential_chars(pos, s, q, fails)
-            if pos in IDENT_POS:
-                sym = 'ident'  # how a raw special character breaks the reparse is incidental
+            if pos == 'url-bare':
+                sym = 'unquoted-url'  # how the reparse breaks is incidental
+                ess = '+'.join(sorted({e if e in ('quote', 'backslash', 'several-classes') else 'other' for e in ess.split('+')}))
             res.violation(clause, f'{sym}|{pos}|chars={ess}', case, v['expected'], v['observed'], size=len(s) * 100 + len(text))
     return False
 
